@@ -517,6 +517,12 @@ def class_corners(rng):
     add("solenoid_vec_kmix", "Solenoid", k=[0.0, 1.0], length=0.5, misalignment=[0.0, 0.0])
     add("cavity_v0", "Cavity", voltage=0.0, phase=rng.choice([0.0, 30.0]), length=rng.choice([0.5, 1.0]))
     add("cavity_vec_vmix", "Cavity", voltage=[0.0, 1e6], phase=0.0, length=1.0)
+    # ... and switched ON, for the classes that are not sliced today: should one of them start slicing, its pieces are tracked live
+    add("cavity_on", "Cavity", voltage=rng.choice([1e6, 5e6, -1e6]), phase=rng.choice([0.0, 30.0, -20.0]), length=rng.choice([0.5, 1.0]))
+    add("solenoid_on", "Solenoid", k=rng.choice([0.5, -1.0, 3.0]), length=rng.choice([0.25, 1.0]), misalignment=rng.choice(realgen.MIS))
+    add("tdc_on", "TransverseDeflectingCavity", voltage=rng.choice([1e5, 1e6]), phase=rng.choice([0.0, 45.0]), length=0.5)
+    add("custom_map", "CustomTransferMap")
+    add("space_charge", "SpaceChargeKick")
     add("tdc_v0", "TransverseDeflectingCavity", voltage=0.0, length=0.5)
     add("tdc_vec_vmix", "TransverseDeflectingCavity", voltage=[0.0, 1e5], length=0.5, tilt=0.0, misalignment=[0.0, 0.0])
     for cls in ("HorizontalCorrector", "VerticalCorrector"):
@@ -606,7 +612,7 @@ def oracle_classes(run, beams, n_random):
         for _ in range(n_random):
             todo.append(("random", realgen.gen_element(run.rng, cls=cls, name="r")))
     for label, spec in todo:
-        res = run.rng.choice(CLS_RES)
+        res = run.rng.choice(CLS_RES if label == "random" else CLS_RES[:3])       # the corners are always split finely
         fails, obs = oracle_any(spec, res, beams)
         run.count("anyclass_" + spec["cls"])
         if label != "random":
